@@ -30,6 +30,8 @@ def run(tier):
         chk.clause('C02.D2', 'perm_r discipline and inverse permutations in ?gstrf')
         r11_kinds.run(chk, 'C02.kinds', prog, cfgname, floor=1900)
         kernels.run_factor(chk, 'C02.kern', prog, cfgname)
+        from ..rules import r5_grow as _r5
+        _r5.run(chk, 'R5', prog, cfgname)
         from ..rules import r12_supernodal
         chk.clause('C02.kern.index', 'abstract interpretation of the supernodal update kernels in a polynomial index domain: every access to the supernode block is the entry the algebra needs')
         for _p in 'ds':
